@@ -10,6 +10,11 @@ Level: **partial** (see the MANIFEST text).  What the theorems carry:
 * the byte-level contract of `copy_cstr` — for ALL texts and ALL capacities ≥ 1 the buffer holds a NUL-terminated,
   valid-UTF-8, longest whole-character prefix of the text; it is the whole text (= the heap variant) whenever the
   text is shorter than the buffer (`cstr_wellformed`, `cstr_wellformed_all`, `static_eq_heap_partial`);
+* the byte-level contract of every write into a buffer the CALLER supplies (`chewing_userphrase_get`,
+  `chewing_phone_to_bopomofo`; the translator enumerates every `*mut c_char` parameter) — for ALL texts and ALL
+  capacities the bytes written stay inside the capacity, the buffer is NUL-terminated valid UTF-8 cut at a character
+  boundary, the whole text when it fits (`caller_copy_in_bounds`, `caller_copy_len_le`, `fit_copy_in_bounds`,
+  `caller_buf_params_reviewed`; `old_caller_copy_refuted` for the byte cut before the fix);
 * the ownership protocol — all FOUR stored iterators own their data (since `fix: chewing_userphrase_enumerate takes a
   snapshot …` the user-phrase iterator too; since `fix: chewing_kbtype_String stops at the end …` the keyboard-type
   counter is fused): every call other than `chewing_free` is defined in every state (`collected_iters_safe`,
@@ -152,6 +157,124 @@ theorem old_copy_cstr_refuted :
     cText (copyCstrOld 4 (utf8Encode [0x6E2C, 0x6E2C])) = none ∧
     utf8Decode (copyCstrOld 4 (utf8Encode [0x6E2C, 0x6E2C])) = none := by
   constructor <;> decide
+
+/-! ### text written into a buffer the CALLER supplies
+
+`chewing_userphrase_get(ctx, phrase_buf, phrase_len, bopomofo_buf, bopomofo_len)` and
+`chewing_phone_to_bopomofo(phone, buf, len)` write into memory the library does not own: the only bound is the length
+the caller passes — whatever it is (the caller may pass less than `chewing_userphrase_has_next` reported). -/
+
+/-- the number of bytes `copy_cstr_to_caller` writes never exceeds the capacity — for EVERY byte string (valid UTF-8 or
+not) and EVERY capacity; nothing at all is written into a buffer of 0 bytes -/
+theorem caller_copy_len_le (cap : Nat) (s : List Nat) :
+    (callerCopy cap s).length ≤ cap ∧ (cap = 0 → callerCopy cap s = []) := by
+  unfold callerCopy
+  by_cases h : cap = 0
+  · simp [h]
+  · have hle : copyLen cap s ≤ cap - 1 := by
+      unfold copyLen; exact Nat.le_trans (floorBoundary_le _ _) (Nat.min_le_left _ _)
+    simp only [if_neg h, List.length_append, List.length_take, List.length_cons, List.length_nil]
+    exact ⟨by omega, fun h0 => absurd h0 h⟩
+
+/-- FULL contract of a truncating caller-buffer write `w` of the text `cs` into `cap` bytes: in bounds; nothing for
+`cap = 0`; else the encoding of a whole-character prefix `cs.take k` followed by one NUL — so whatever the buffer held
+before (`old`, `cap` bytes), a C reader now sees exactly that prefix, which is valid UTF-8 decoding to `cs.take k`, the
+longest prefix that fits, and the whole text whenever the text fits -/
+def CallerCopyContract (cap : Nat) (cs w : List Nat) : Prop :=
+  w.length ≤ cap ∧ (cap = 0 → w = []) ∧
+  (1 ≤ cap → ∃ k, k ≤ cs.length ∧
+    w = utf8Encode (cs.take k) ++ [0] ∧
+    (∀ old, cText (overwrite w old) = some (utf8Encode (cs.take k))) ∧
+    utf8Decode (utf8Encode (cs.take k)) = some (cs.take k) ∧
+    (k = cs.length ∨ cap - 1 < utf8Len (cs.take (k + 1))) ∧
+    (utf8Len cs < cap → k = cs.length))
+
+/-- **caller_copy_in_bounds**: `copy_cstr_to_caller` (after `fix: chewing_userphrase_get truncates at a character
+boundary`) meets the full contract for ALL texts and ALL capacities -/
+theorem caller_copy_in_bounds (cap : Nat) (cs : List Nat) (hcs : IsText cs) :
+    CallerCopyContract cap cs (callerCopy cap (utf8Encode cs)) := by
+  refine ⟨(caller_copy_len_le cap _).1, (caller_copy_len_le cap _).2, fun hcap => ?_⟩
+  obtain ⟨_, k, hk, ht, hd, _, hmax, hfit⟩ := cstr_wellformed_all cap hcap cs hcs
+  have hlt : ∀ c ∈ cs, c < 0x110000 := fun c hc => (hcs c hc).1.lt
+  have hmin : min (cap - 1) (utf8Encode cs).length ≤ (utf8Encode cs).length := Nat.min_le_right _ _
+  -- the prefix length of `copyLen` is a whole number of characters; identify it with the `k` of `copy_cstr`
+  have hnz : ∀ b ∈ utf8Encode (cs.take k), b ≠ 0 :=
+    utf8Encode_nonzero _ (fun c hc => (hcs c (List.mem_of_mem_take hc)).2)
+  have hcl : (utf8Encode cs).take (copyLen cap (utf8Encode cs)) = utf8Encode (cs.take k) := by
+    -- from `ht`: the text of `copyCstr` is the copied prefix
+    have hle : copyLen cap (utf8Encode cs) ≤ cap - 1 := by
+      unfold copyLen; exact Nat.le_trans (floorBoundary_le _ _) (Nat.min_le_left _ _)
+    have hpre : ∀ b ∈ (utf8Encode cs).take (copyLen cap (utf8Encode cs)), b ≠ 0 := fun b hb =>
+      utf8Encode_nonzero cs (fun c hc => (hcs c hc).2) b (List.mem_of_mem_take hb)
+    obtain ⟨m, hm⟩ : ∃ m, cap - copyLen cap (utf8Encode cs) = m + 1 :=
+      ⟨cap - copyLen cap (utf8Encode cs) - 1, by omega⟩
+    have := cText_append_zeros _ hpre m
+    unfold copyCstr at ht
+    rw [hm, this] at ht
+    exact Option.some.inj ht
+  have hw : callerCopy cap (utf8Encode cs) = utf8Encode (cs.take k) ++ [0] := by
+    unfold callerCopy; rw [if_neg (by omega), hcl]
+  refine ⟨k, hk, hw, fun old => ?_, hd, hmax, hfit⟩
+  rw [hw]; unfold overwrite
+  rw [List.append_assoc]
+  exact cText_append_zero_cons _ hnz _
+
+/-- in particular: what `chewing_userphrase_get` leaves in either buffer of ≥ 1 byte is NUL-terminated valid UTF-8 -/
+theorem caller_text_valid (cap : Nat) (hcap : 1 ≤ cap) (cs : List Nat) (hcs : IsText cs) (old : List Nat) :
+    ∃ t, cText (overwrite (callerCopy cap (utf8Encode cs)) old) = some t ∧ ValidUtf8 t := by
+  obtain ⟨_, _, h⟩ := caller_copy_in_bounds cap cs hcs
+  obtain ⟨k, _, _, ht, hd, _⟩ := h hcap
+  exact ⟨_, ht old, by unfold ValidUtf8; rw [hd]; rfl⟩
+
+/-- the caller's buffer keeps its length: an in-bounds write over `cap` bytes leaves `cap` bytes -/
+theorem overwrite_length (w old : List Nat) (h : w.length ≤ old.length) : (overwrite w old).length = old.length := by
+  unfold overwrite; simp only [List.length_append, List.length_drop]; omega
+
+/-- the code BEFORE that fix (recorded as `fixed:` F35b): in bounds and NUL-terminated, but the cut fell wherever byte
+`cap - 1` was — `測` (3 bytes) into a 3-byte buffer left the first two bytes of the character: not valid UTF-8 -/
+theorem old_caller_copy_refuted :
+    callerCopyOld 3 (utf8Encode [0x6E2C]) = [0xE6, 0xB8, 0] ∧ utf8Decode [0xE6, 0xB8] = none ∧
+    ¬ CallerCopyContract 3 [0x6E2C] (callerCopyOld 3 (utf8Encode [0x6E2C])) := by
+  refine ⟨by decide, by decide, fun h => ?_⟩
+  obtain ⟨k, hk, hw, _⟩ := h.2.2 (by omega)
+  have h1 : callerCopyOld 3 (utf8Encode [0x6E2C]) = [0xE6, 0xB8, 0] := by decide
+  rw [h1] at hw
+  have hk' : k = 0 ∨ k = 1 := by simp at hk; omega
+  rcases hk' with rfl | rfl
+  · exact absurd hw (by decide)
+  · exact absurd hw (by decide)
+
+/-- `chewing_phone_to_bopomofo`: all or nothing — in bounds for every text and capacity; the whole text and one NUL when
+the caller's length admits it, not a single byte otherwise -/
+theorem fit_copy_in_bounds (cap : Nat) (s : List Nat) :
+    (fitCopy cap s).length ≤ cap ∧
+    (s.length + 1 ≤ cap → fitCopy cap s = s ++ [0]) ∧ (cap < s.length + 1 → fitCopy cap s = []) := by
+  unfold fitCopy
+  by_cases h : s.length + 1 ≤ cap
+  · rw [if_pos h]
+    exact ⟨by simp only [List.length_append, List.length_cons, List.length_nil]; omega, fun _ => rfl, fun h' => by omega⟩
+  · rw [if_neg h]
+    exact ⟨Nat.zero_le _, fun h' => absurd h' h, fun _ => rfl⟩
+
+/-- … and when it is written, the reader sees the text itself (the syllable texts contain no NUL: `bopo_chars_short`) -/
+theorem fit_copy_text (cap : Nat) (s : List Nat) (hs : ∀ b ∈ s, b ≠ 0) (h : s.length + 1 ≤ cap) (old : List Nat) :
+    cText (overwrite (fitCopy cap s) old) = some s := by
+  rw [(fit_copy_in_bounds cap s).2.1 h]; unfold overwrite
+  rw [List.append_assoc]; exact cText_append_zero_cons s hs _
+
+/-- the translator's enumeration of EVERY `*mut c_char` parameter of an exported function is the reviewed one — three
+caller buffers, two written by `copy_cstr_to_caller`, one all-or-nothing; a new caller buffer in capi/src/io.rs
+breaks this theorem (and the harness's `cstr callerparams` record) -/
+theorem caller_buf_params_reviewed :
+    callerBufParams = [("chewing_phone_to_bopomofo", "buf", "len", 1),
+                       ("chewing_userphrase_get", "bopomofo_buf", "bopomofo_len", 0),
+                       ("chewing_userphrase_get", "phrase_buf", "phrase_len", 0)] ∧ callerCopyShape = 1 := by decide
+
+example : callerCopy 3 (utf8Encode [0x6E2C]) = [0] ∧ callerCopy 4 (utf8Encode [0x6E2C]) = [0xE6, 0xB8, 0xAC, 0] ∧
+    callerCopy 0 (utf8Encode [0x6E2C]) = [] ∧ callerCopy 6 (utf8Encode [0x6E2C, 0x8A66]) = [0xE6, 0xB8, 0xAC, 0] := by decide
+example : cText (overwrite (callerCopy 6 (utf8Encode [0x6E2C, 0x8A66])) [7, 7, 7, 7, 7, 7]) = some [0xE6, 0xB8, 0xAC] ∧
+    overwrite (callerCopy 6 (utf8Encode [0x6E2C, 0x8A66])) [7, 7, 7, 7, 7, 7] = [0xE6, 0xB8, 0xAC, 0, 7, 7] := by decide
+example : fitCopy 9 [0xE3, 0x84, 0x98] = [0xE3, 0x84, 0x98, 0] ∧ fitCopy 3 [0xE3, 0x84, 0x98] = [] := by decide
 
 /-- the translator recognised the fixed shapes of `copy_cstr`, of `chewing_free`, of the user-phrase iterator (an owned
 `vec::IntoIter` filled by `entries().collect()`, no borrow of the dictionary), of the fused keyboard-type counter and
